@@ -1121,7 +1121,24 @@ func checkHeaderValidation(c *Check, p *Program, rule string) {
 		}
 	})
 	if us == nil {
-		c.Fail(rule, "knxnet.UnpackHeader validates length and version", p.Pos(uh.Pos()), "the header is not decoded by one util.UnpackSome over the input: the validated octets are not identified")
+		// a hand-written header decoder: interpreted on a symbolic input
+		acc, _, okI, whyI := headerByInterpretation(p, uh)
+		if !okI {
+			c.Fail(rule, "knxnet.UnpackHeader validates length and version", p.Pos(uh.Pos()), "the header decoder is neither one util.UnpackSome over the input nor followed by the interpreter: "+whyI)
+			return
+		}
+		want := []int{6, 16}
+		what := []string{"header length", "protocol version"}
+		for i := 0; i < 2; i++ {
+			other := -1
+			for v := 0; v < 256; v++ {
+				if acc[i][v] != (v == want[i]) {
+					other = v
+					break
+				}
+			}
+			c.Decide(other < 0, rule, "knxnet.UnpackHeader accepts exactly "+what[i]+" "+fmt.Sprint(want[i]), p.Pos(uh.Pos()), "success is reachable for that value only (interpreted)", fmt.Sprintf("the header decoder's verdict for %s %d is wrong: frames of another protocol revision or with a foreign header are decoded as if they were well-formed", what[i], other))
+		}
 		return
 	}
 	items, opaque := ifaceArgs(us, true)
